@@ -21,7 +21,8 @@ def observe(R, cases):
     recs = []
     for o in obs:
         recs.append(dict(id=o["id"], src=o["src"], len=o["len"], base=slim(o["base"]),
-                         faults=[dict(k=f["k"], sc=slim(f["sc"]), rd=slim(f["rd"])) for f in o["faults"]]))
+                         faults=[dict(k=f["k"], sc=slim(f["sc"]), rd=slim(f["rd"])) for f in o["faults"]],
+                         inner=[dict(k=f["k"], b=f["b"], rd=slim(f["rd"])) for f in o.get("inner", [])]))
     return recs
 
 
@@ -44,10 +45,13 @@ def report(R, recs, bad):
     for k, pos in bad:
         r = recs[k]
         f = r["faults"][pos] if pos >= 0 else None
+        inner = [g for g in r.get("inner", []) if g["k"] == pos]
         ex = dict(src=r["src"], fault_at=pos, prefix=r["src"][:max(pos, 0)])
         if f:
             ex.update(scanner=dict(delivered=f["sc"]["delivered"], erris=f["sc"]["erris"], err=f["sc"]["err"], panic=f["sc"]["panic"]),
                       reader=dict(erris=f["rd"]["erris"], err=f["rd"]["err"], panic=f["rd"]["panic"]))
+        if inner:
+            ex["reader_failing_inside_the_character"] = [dict(byte=g["b"], erris=g["rd"]["erris"], err=g["rd"]["err"]) for g in inner]
         R.violation("read fault not reported as such: %s" % json.dumps(ex, ensure_ascii=False)[:1500],
                     dict(kind="faults", case=dict(id=r["id"], src=r["src"]), k=pos), coords=dict(src=r["src"], k=pos))
 
@@ -82,7 +86,8 @@ def run(R):
     recs = observe(R, cases)
     bad = validate(R, recs, "c10")
     report(R, recs, bad)
-    R.evaluations = sum(2 * len(r["faults"]) for r in recs)
+    R.evaluations = sum(2 * len(r["faults"]) + len(r["inner"]) for r in recs)
+    R.notes["faults_inside_characters"] = sum(len(r["inner"]) for r in recs)
     R.nontrivial = set((r["id"], f["k"]) for r in recs for f in r["faults"] if f["sc"]["delivered"])
     R.exhaustive = True
     for r in recs[len(recs) // 2: len(recs) // 2 + 2]:
